@@ -625,8 +625,10 @@ func buildEvidence(prop, tier string, seed int64, spec PropSpec, reports []*runR
 			reach[k] += n
 		}
 		bounds = append(bounds, rep.spec.Fn+"{"+paramString(rep.params)+"}")
-		for i, w := range s.Witnesses {
-			if i >= 2 || len(samples) >= 12 {
+		ws := append([]Witness{}, s.Witnesses...)
+		sort.SliceStable(ws, func(i, j int) bool { return witnessWeight(ws[i]) > witnessWeight(ws[j]) })
+		for i, w := range ws {
+			if i >= 2 || len(samples) >= 14 {
 				break
 			}
 			samples = append(samples, map[string]interface{}{"harness": rep.spec.Fn, "params": paramString(rep.params), "inputs": modelToVals(w.Model), "string_inputs": strModelToVals(w.StrModel), "observed": w.Observed, "reached": w.Reached})
@@ -716,4 +718,20 @@ func buildEvidence(prop, tier string, seed int64, spec PropSpec, reports []*runR
 		"property_id": prop, "tier": tier, "seed": seed, "level": level, "coverage": cov,
 		"assumptions": spec.Assumptions, "wall_s": wall, "violations": nViolations,
 	}
+}
+
+// witnessWeight prefers witnesses that exercise more of the harness (more inputs set to non-zero values, more reached points).
+func witnessWeight(w Witness) int {
+	n := len(w.Reached) * 3
+	for _, v := range w.Model {
+		if v != 0 {
+			n++
+		}
+	}
+	for _, v := range w.StrModel {
+		if v != "" {
+			n += 2
+		}
+	}
+	return n
 }
